@@ -58,6 +58,7 @@ class HistGen:
             "read_after_every_op": False,
             "big_values": True,
             "file": True,
+            "layerc": True,
         }
         if profile:
             self.p.update(profile)
@@ -309,7 +310,11 @@ class HistGen:
         if r.random() < self.p["p_drop"]:
             self.emit("drop %d" % t)
         else:
+            if self.p.get("layerc"):
+                self.emit("pretrees %d" % t)
             self.emit("commit %d" % t)
+            if self.p.get("layerc"):
+                self.emit("notes")
             self.committed = sh
 
     def verify(self):
@@ -393,7 +398,9 @@ def gen_range_deletes(nkeys, klen=200, vlen=10, every_bucket=0, touch=None, page
             if reinsert:
                 for x in range(i, j, 2):
                     lines.append("put 2 1 %s %s" % (hx(dkey(x, klen)), hx(b"again")))
+            lines.insert(len(lines), "pretrees 2")
             lines.append("commit 2")
+            lines.append("notes")
             lines.append("file")
             lines.append("begin 3 r")
             lines.append("dump 3")
@@ -405,6 +412,64 @@ def gen_range_deletes(nkeys, klen=200, vlen=10, every_bucket=0, touch=None, page
             lines.append("begin 4 r")
             lines.append("dump 4")
             lines.append("drop 4")
+            lines.append("close")
+    return lines
+
+
+def gen_keep_window(nkeys, klen=200, vlen=10, every_bucket=4, pagesize=1024, prefix="kw", windows=None, maxw=8):
+    """base tree of nkeys keys (every `every_bucket`-th entry a sub-bucket); one transaction per history
+    deletes everything *outside* a window [a, b) without touching the window's own keys, and modifies a
+    sub-bucket whose header lies inside the window: the tree collapses onto pages the transaction never
+    loaded, while a nested bucket below them is dirty."""
+    lines = []
+    ws = windows if windows is not None else [(a, b) for a in range(nkeys) for b in range(a + 1, min(nkeys, a + maxw) + 1)]
+    for (a, b) in ws:
+        inside = [t for t in range(0, nkeys, every_bucket) if a <= t < b]
+        for tb in inside or [None]:
+            hid = "%s-n%d-k%d-b%d-%d-%d-t%s" % (prefix, nkeys, klen, every_bucket, a, b, tb)
+            lines.append("hist %s" % hid)
+            lines.append("cfg pagesize=%d numpages=32 strict=0 populate=0" % pagesize)
+            lines.append("open")
+            lines.append("begin 1 w")
+            lines.append("mkb 1 1 0 %s" % hx(b"root"))
+            for x in range(nkeys):
+                if x % every_bucket == 0:
+                    lines.append("mkb 1 %d 1 %s" % (100 + x, hx(dkey(x, klen))))
+                    lines.append("put 1 %d %s %s" % (100 + x, hx(b"inner"), hx(b"v")))
+                else:
+                    lines.append("put 1 1 %s %s" % (hx(dkey(x, klen)), vtok(bytes([65 + x % 26]) * vlen)))
+            lines.append("commit 1")
+            lines.append("begin 2 w")
+            lines.append("getb 2 1 0 %s" % hx(b"root"))
+            if tb is not None:
+                lines.append("getb 2 2 1 %s" % hx(dkey(tb, klen)))
+                lines.append("put 2 2 %s %s" % (hx(b"touched"), hx(b"w")))
+                lines.append("nextint 2 2")
+            for x in list(range(0, a)) + list(range(b, nkeys)):
+                if x % every_bucket == 0:
+                    lines.append("delb 2 1 %s" % hx(dkey(x, klen)))
+                else:
+                    lines.append("del 2 1 %s" % hx(dkey(x, klen)))
+            lines.append("pretrees 2")
+            lines.append("commit 2")
+            lines.append("notes")
+            lines.append("file")
+            lines.append("begin 3 r")
+            lines.append("dump 3")
+            lines.append("drop 3")
+            lines.append("dbcheck")
+            # further commits must not hand out a page that is still in use
+            for t in (4, 5):
+                lines.append("begin %d w" % t)
+                lines.append("getb %d 1 0 %s" % (t, hx(b"root")))
+                lines.append("put %d 1 %s %s" % (t, hx(b"zz%d" % t), vtok(b"n" * 210)))
+                lines.append("commit %d" % t)
+            lines.append("file")
+            lines.append("dbcheck")
+            lines.append("reopen")
+            lines.append("begin 6 r")
+            lines.append("dump 6")
+            lines.append("drop 6")
             lines.append("close")
     return lines
 
